@@ -100,6 +100,55 @@ class StopLoop(Exception):
     pass
 
 
+def strict_stdout():
+    """what sys.stdout is in the real hostwatch child (python3 -c ... with a pipe / socket as fd 1 under a UTF-8 locale):
+    a real io.TextIOWrapper, UTF-8, errors='strict' - unlike io.StringIO it refuses lone surrogates at write()"""
+    return io.TextIOWrapper(io.BytesIO(), encoding="utf-8", errors="strict", newline="\n")
+
+
+def encodable(t):
+    try:
+        t.encode("utf-8")
+        return True
+    except UnicodeEncodeError:
+        return False
+
+
+def bad_line(raw):
+    """the first line of a remote file that is not UTF-8 (or the start of the file)"""
+    for l in re.split(rb"(?<=\n)", raw):
+        try:
+            l.decode("utf-8")
+        except UnicodeDecodeError:
+            return l
+    return raw[:80]
+
+
+UNDECODABLE = [b"\xe9", b"\xff", b"\xc3", b"\xe4\xb8", b"\xed\xa0\x80", b"\x80", b"\xfe", b"\xc0\xaf", b"\xf5\x80\x80\x80", b"\xa0"]
+
+
+def spoil(rng, raw, ctx=None):
+    """undecodable bytes (0x80-0xff not forming UTF-8) put into a remote hosts / cache file: inside a name, inside an
+    address, inside a comment - or anywhere"""
+    for _ in range(rng.choice([1, 1, 2, 3])):
+        where = rng.choice(["name", "name", "addr", "comment", "any"])
+        spots = []
+        if where == "name":
+            spots = [m.start() + rng.randint(0, len(m.group())) for m in re.finditer(rb"(?<=[ \t,])[^\s#,]+|^[^\s#,]+(?=,)", raw, re.M)]
+        elif where == "addr":
+            spots = [m.start() + rng.randint(0, len(m.group())) for m in re.finditer(rb"^[0-9a-fA-F.:]+(?=[ \t])|(?<=,)[^\s,]+$", raw, re.M)]
+        elif where == "comment":
+            spots = [m.start() + rng.randint(1, len(m.group())) for m in re.finditer(rb"#[^\n]*", raw)]
+        if not spots:
+            where = "any"
+            spots = [rng.randint(0, len(raw))]
+        j = rng.choice(spots)
+        raw = raw[:j] + rng.choice(UNDECODABLE) + raw[j:]
+        if ctx is not None:
+            ctx.count("scanner_file_undecodable_in_" + where)
+    return raw
+
+
 # --------------------------------------------------------------------------
 # scanner
 
@@ -131,23 +180,36 @@ class Scanner:
         hw.CACHE_WRITE_FAILED = False
 
     def _run(self, fn):
+        """fn under a stdout as strict as the real child's (UTF-8, errors='strict', over a byte stream); whatever the
+        code raises - any class, SystemExit included - is an outcome for the oracle, never a harness error"""
         so = sys.stdout
-        sys.stdout = buf = io.StringIO()
+        sys.stdout = buf = strict_stdout()
+        self.last_exc = None
         try:
             try:
                 fn()
                 st = "OK"
-            except UnicodeEncodeError:
+            except UnicodeEncodeError as e:
                 st = "CRASH"
-            except UnicodeDecodeError:
+                self.last_exc = e
+            except UnicodeDecodeError as e:
                 st = "DECODE"
-            except RecursionError:
+                self.last_exc = e
+            except RecursionError as e:
                 st = "FUEL"
-            except Exception as e:      # anything else is reported verbatim (the model has no such outcome)
-                st = "EXC:" + type(e).__name__
+                self.last_exc = e
+            except KeyboardInterrupt:
+                raise
+            except BaseException as e:      # anything else is reported verbatim (the model has no such outcome)
+                st = ("EXIT:" if isinstance(e, SystemExit) else "EXC:") + type(e).__name__
+                self.last_exc = e
         finally:
             sys.stdout = so
-        return "%s %s" % (st, u32(buf.getvalue()))
+        try:
+            buf.flush()
+        except Exception:
+            pass
+        return "%s %s" % (st, u32(buf.buffer.getvalue().decode("utf-8", "replace")))
 
     def found_hosts(self, calls):
         self.reset()
@@ -756,8 +818,12 @@ class ScanOut:
         self.nflush = 0
         self.broken = False          # a flush has failed: the reader is gone
         self.fail_flush_at = fail_flush_at
+        self.strict = strict_stdout()
 
     def write(self, s):
+        self.strict.write(s)         # as strict as the real child's stdout: what UTF-8 cannot carry raises here
+        self.strict.buffer.seek(0)
+        self.strict.buffer.truncate()
         self.parts.append(s)
         return len(s)
 
@@ -1059,7 +1125,10 @@ def rand_world(rng, plain=False):
         lines = []
         for _ in range(rng.randint(0, 4)):
             lines.append("%s %s\n" % (rng.choice(ips + [rand_ip(rng)]), " ".join(rng.choice(names + [file_nm()]) for _ in range(rng.randint(1, 3)))))
-        w["etc"] = "".join(lines).encode("utf-8", "replace").hex()
+        raw = "".join(lines).encode("utf-8", "replace")
+        if not plain and raw and rng.random() < 0.35:
+            raw = spoil(rng, raw)
+        w["etc"] = raw.hex()
     elif r < 0.7:
         w["etc"] = None
     else:
@@ -1163,7 +1232,13 @@ def scanner_loop_cases(ctx, rng, quick, work, scanner_streams):
                           dict(rp, unflushed=r["unflushed_at_wait"][:200]))
         if r["text"] and not r["text"].endswith("\n"):
             ctx.violation("the scanner wrote an incomplete record", dict(rp, tail=r["text"][-100:]))
-        if not r["status"].startswith("EXC"):
+        unenc = [n for c in r["calls"] for n in c if not encodable(n)]
+        if unenc:
+            # a name no UTF-8 stream can carry (a lone surrogate, e.g. from a seed name given as undecodable bytes): the strict
+            # stdout refuses it at write(); the model's found_host has no stdout that refuses, so only the property's own
+            # oracle applies to this run (the scanner must still be running / have returned because its input ended)
+            ctx.count("scanner_loop_unencodable_name_runs")
+        if not r["status"].startswith("EXC") and not unenc:
             tb = tables(*[x for c in r["calls"] for x in c])
             fh_lines.append("FH %s %s" % (tb, " ".join("%s %s" % (u32(n), u32(i)) for n, i in r["calls"])) if r["calls"] else None)
             fh_runs.append((w, r))
@@ -1358,9 +1433,8 @@ def _correspondence(ctx, rng, quick, work):
             raw = rand_file(kind).encode("utf-8")
             if 2 * k < len(fixed_files) * 2 and fixed_files[k % len(fixed_files)][0] == kind and k < len(fixed_files):
                 raw = fixed_files[k][1]
-            elif rng.random() < 0.08 and raw:      # undecodable bytes in the remote file
-                j = rng.randint(0, len(raw))
-                raw = raw[:j] + rng.choice([b"\xe9", b"\xff", b"\xc3", b"\xe4\xb8", b"\xed\xa0\x80"]) + raw[j:]
+            elif rng.random() < 0.3 and raw:      # undecodable bytes in the remote file: in names, addresses, comments
+                raw = spoil(rng, raw, ctx)
             content = raw.decode("utf-8", "replace")       # what open(..., errors='replace') yields
             lines.append("%s %s %s" % (cmd, tables(content), u32(content)))
             impl.append(fn(raw))
@@ -1379,11 +1453,25 @@ def _correspondence(ctx, rng, quick, work):
             continue
         if i != o:
             ctx.disagree(d[0], repr(d[1])[:400], i[:300], o[:300])
-        if i.startswith("CRASH"):
+        if i.startswith("CRASH") and d[0] == "cache" and scan_mode == "asfound":
             ctx.count("scanner_crash_nonascii_cache")
             ctx.violation("hostwatch dies rewriting the host cache with a non-ASCII name (UnicodeEncodeError)", rp)
+        elif not i.startswith("OK "):
+            # whatever the scanner meets on the remote machine must not end it: it raised / exited on this file content
+            cls = {"CRASH": "UnicodeEncodeError", "FUEL": "RecursionError"}.get(i.split(" ")[0], i.split(" ")[0].split(":")[-1])
+            ctx.count("scanner_ended_on_file_" + d[0])
+            if seen_kinds.get(("ended", d[0], cls)):
+                continue          # one failing input per kind of file and exception
+            seen_kinds[("ended", d[0], cls)] = 1
+            fn = sc.read_host_cache if d[0] == "cache" else sc.check_etc_hosts
+            alone = [l for l in re.split(rb"(?<=\n)", d[2]) if l and not fn(l).startswith("OK ")]
+            if alone:             # a single line of the file that does it on its own: the smaller failing input
+                rp = dict(rp, content_hex=hx(alone[0]), whole_file_hex=hx(d[2]))
+            ctx.violation("the scanner process ended (%s) on what it met on the remote machine: %s line %r"
+                          % (cls, "host cache" if d[0] == "cache" else "hosts file", (alone[0] if alone else bad_line(d[2]))[:120]),
+                          dict(rp, exception=cls, output_before_it_ended=un_u32(i.split(" ")[1])[:200].encode("utf-8", "replace").decode("utf-8")))
         if i.startswith("OK ") and len(i) > 4:
-            scanner_streams.append(un_u32(i.split(" ")[1]).encode("utf-8"))
+            scanner_streams.append(un_u32(i.split(" ")[1]).encode("utf-8", "replace"))
     # _is_ip recogniser
     lines, impl = [], []
     for a in FIXED_IPS + [rand_ip(rng) for _ in range(100 if quick else 3000)]:
